@@ -687,6 +687,60 @@ fn watchdog_sweep(p: &str) -> String {
         !bad.is_empty(), total1, total_n, interval, bad.join("; ").replace('"', "'"))
 }
 
+/// PUSH32 op(k-1) .. PUSH32 op0 <opcode>: the folded top of the stack must equal `want` (the EVM result, computed by the caller).
+fn composite_opcode(p: &str) -> String {
+    let opcode = (param(p, "opcode").unwrap_or(0x1a) & 0xff) as u8;
+    let mut code = Vec::new();
+    let mut n = 0;
+    for k in (0..3).rev() {
+        if let Some(v) = hex_param(p, &format!("op{k}")) {
+            code.push(0x7f);
+            let mut w = [0u8; 32];
+            for (i, b) in v.iter().rev().take(32).enumerate() {
+                w[31 - i] = *b;
+            }
+            code.extend_from_slice(&w);
+            n += 1;
+        }
+    }
+    code.push(opcode);
+    code.push(0x00);
+    let want = hex_param(p, "want").unwrap_or_default();
+    let stream = InstructionStream::try_from(code.as_slice()).expect("disassembles");
+    let mut vm = VM::new(stream, Config::default(), LazyWatchdog.in_rc()).expect("vm");
+    let _ = vm.execute();
+    let st = &vm.stored_states()[0];
+    let top = st.stack().read(0).expect("result").constant_fold();
+    let got = match top.data() { RSVD::KnownData { value } => hex(&value.value_le().to_be_bytes()), _ => "not-constant".to_string() };
+    format!("{{\"violates\": {}, \"operands\": {}, \"folded\": \"{}\", \"evm\": \"{}\"}}", got != hex(&want), n, got, hex(&want))
+}
+
+/// JUMPDEST PUSH0 PC PUSH2 0x0102: the stack must hold [0, 2, 0x0102] (bottom to top).
+fn push_like(_p: &str) -> String {
+    let code = [0x5bu8, 0x5f, 0x58, 0x61, 0x01, 0x02, 0x00];
+    let stream = InstructionStream::try_from(code.as_slice()).expect("disassembles");
+    let mut vm = VM::new(stream, Config::default(), LazyWatchdog.in_rc()).expect("vm");
+    let _ = vm.execute();
+    let st = &vm.stored_states()[0];
+    let kw = |d: u32| match st.stack().read(d).expect("frame").data() { RSVD::KnownData { value } => usize::from(*value) as i64, _ => -1 };
+    let got = [kw(2), kw(1), kw(0)];
+    format!("{{\"violates\": {}, \"stack\": \"{:?}\", \"expected\": \"[0, 2, 258]\"}}", got != [0, 2, 0x0102], got)
+}
+
+/// sstore(1, 0xaa) before a JUMPI: both successors must still see the write.
+fn fork_keeps_storage(_p: &str) -> String {
+    // PUSH1 0xaa PUSH1 1 SSTORE  CALLDATASIZE PUSH1 0x0a JUMPI  STOP  (pad)  JUMPDEST STOP
+    let code = [0x60u8, 0xaa, 0x60, 0x01, 0x55, 0x36, 0x60, 0x0a, 0x57, 0x00, 0x5b, 0x00];
+    let stream = InstructionStream::try_from(code.as_slice()).expect("disassembles");
+    let mut vm = VM::new(stream, Config::default(), LazyWatchdog.in_rc()).expect("vm");
+    let _ = vm.execute();
+    let mut counts = Vec::new();
+    for st in vm.stored_states() {
+        counts.push(st.storage().entry_count());
+    }
+    format!("{{\"violates\": {}, \"storage_entries_per_path\": \"{:?}\"}}", counts.len() != 2 || counts.iter().any(|c| *c != 1), counts)
+}
+
 /// Concrete stack programs: PUSH1 1..5 then DUPn / SWAPn for every n that fits; the resulting stack must match a list model.
 fn stack_ops(_p: &str) -> String {
     let mut bad = Vec::new();
@@ -756,6 +810,9 @@ fn main() {
         "jump_target_bits" => jump_target_bits(&p),
         "halting_opcode" => halting_opcode(&p),
         "stack_ops" => stack_ops(&p),
+        "push_like" => push_like(&p),
+        "composite_opcode" => composite_opcode(&p),
+        "fork_keeps_storage" => fork_keeps_storage(&p),
         "mem_storage_wiring" => mem_storage_wiring(&p),
         "watchdog_sweep" => watchdog_sweep(&p),
         "unify_polls" => unify_polls(&p),
